@@ -231,6 +231,13 @@ impl H3Client {
         }
     }
 
+    /// offers `data` once; returns how many bytes the stream took now (0 when flow control blocks)
+    pub fn send_some(&mut self, id: u64, data: &[u8]) -> usize {
+        let n = self.h3.send_body(&mut self.conn, id, data, false).unwrap_or(0);
+        flush(&self.socket, &mut self.conn);
+        n
+    }
+
     fn poll_events(&mut self) {
         loop {
             match self.h3.poll(&mut self.conn) {
@@ -293,6 +300,26 @@ impl H3Client {
 pub struct Tap {
     io: TcpStream,
     pub wire: Arc<Mutex<Vec<u8>>>,
+    /// re-frame the first TLS record written (the ClientHello) as two records
+    split_first: bool,
+    pending: Vec<u8>,
+}
+
+impl Tap {
+    fn drain(&mut self, cx: &mut std::task::Context<'_>) -> std::task::Poll<std::io::Result<()>> {
+        use tokio::io::AsyncWrite;
+        while !self.pending.is_empty() {
+            let p = self.pending.clone();
+            match std::pin::Pin::new(&mut self.io).poll_write(cx, &p) {
+                std::task::Poll::Ready(Ok(n)) => {
+                    self.pending.drain(..n);
+                }
+                std::task::Poll::Ready(Err(e)) => return std::task::Poll::Ready(Err(e)),
+                std::task::Poll::Pending => return std::task::Poll::Pending,
+            }
+        }
+        std::task::Poll::Ready(Ok(()))
+    }
 }
 
 impl tokio::io::AsyncRead for Tap {
@@ -303,6 +330,23 @@ impl tokio::io::AsyncRead for Tap {
 
 impl tokio::io::AsyncWrite for Tap {
     fn poll_write(mut self: std::pin::Pin<&mut Self>, cx: &mut std::task::Context<'_>, data: &[u8]) -> std::task::Poll<std::io::Result<usize>> {
+        if let std::task::Poll::Pending = self.drain(cx)? {
+            return std::task::Poll::Pending;
+        }
+        if self.split_first && data.len() > 5 + 60 && data[0] == 0x16 && 5 + (((data[3] as usize) << 8) | data[4] as usize) == data.len() {
+            self.split_first = false;
+            let body = &data[5..];
+            let cut = 50; // inside the session id / cipher suites: the random is whole, the message is not
+            let mut out = vec![0x16, data[1], data[2], (cut >> 8) as u8, cut as u8];
+            out.extend_from_slice(&body[..cut]);
+            let rest = body.len() - cut;
+            out.extend_from_slice(&[0x16, data[1], data[2], (rest >> 8) as u8, rest as u8]);
+            out.extend_from_slice(&body[cut..]);
+            self.wire.lock().unwrap().extend_from_slice(&out);
+            self.pending = out;
+            let _ = self.drain(cx)?;
+            return std::task::Poll::Ready(Ok(data.len()));
+        }
         let r = std::pin::Pin::new(&mut self.io).poll_write(cx, data);
         if let std::task::Poll::Ready(Ok(n)) = &r {
             let mut w = self.wire.lock().unwrap();
@@ -313,6 +357,9 @@ impl tokio::io::AsyncWrite for Tap {
         r
     }
     fn poll_flush(mut self: std::pin::Pin<&mut Self>, cx: &mut std::task::Context<'_>) -> std::task::Poll<std::io::Result<()>> {
+        if let std::task::Poll::Pending = self.drain(cx)? {
+            return std::task::Poll::Pending;
+        }
         std::pin::Pin::new(&mut self.io).poll_flush(cx)
     }
     fn poll_shutdown(mut self: std::pin::Pin<&mut Self>, cx: &mut std::task::Context<'_>) -> std::task::Poll<std::io::Result<()>> {
@@ -322,6 +369,16 @@ impl tokio::io::AsyncWrite for Tap {
 
 /// TLS client connection that also yields what was written to the socket first
 pub async fn tls_connect_tap(addr: SocketAddr, server_name: &str, alpn: &[&[u8]]) -> (Option<tokio_rustls::client::TlsStream<Tap>>, Arc<Mutex<Vec<u8>>>) {
+    tls_connect_tap_opt(addr, server_name, alpn, false).await
+}
+
+/// `split` = the ClientHello goes out as two TLS records (a handshake message may span records)
+pub async fn tls_connect_tap_opt(
+    addr: SocketAddr,
+    server_name: &str,
+    alpn: &[&[u8]],
+    split: bool,
+) -> (Option<tokio_rustls::client::TlsStream<Tap>>, Arc<Mutex<Vec<u8>>>) {
     let wire = Arc::new(Mutex::new(vec![]));
     let mut cfg = rustls::ClientConfig::builder()
         .with_safe_defaults()
@@ -332,7 +389,7 @@ pub async fn tls_connect_tap(addr: SocketAddr, server_name: &str, alpn: &[&[u8]]
     let Ok(name) = rustls::ServerName::try_from(server_name) else { return (None, wire) };
     let Ok(tcp) = TcpStream::connect(addr).await else { return (None, wire) };
     let _ = tcp.set_nodelay(true);
-    let tap = Tap { io: tcp, wire: wire.clone() };
+    let tap = Tap { io: tcp, wire: wire.clone(), split_first: split, pending: vec![] };
     let tls = tokio::time::timeout(Duration::from_secs(5), connector.connect(name, tap)).await.ok().and_then(|r| r.ok());
     (tls, wire)
 }
